@@ -94,6 +94,9 @@ def build_config(ua=None, extra_text_bs=False):
     for _ in range(rng.randrange(0, 4)):
         e = rng.choice(cfggen.ENCODERS)
         server.append((e, bytes(rng.randrange(256) for _ in range(rng.randrange(0, 5)))) if e in ("append", "prepend") else (e, True))
+    if rng.random() < 0.08:
+        # recover lengths are 32-bit numbers: a server prepend / append longer than any stored string
+        server.insert(rng.randrange(len(server) + 1), (rng.choice(["append", "prepend"]), bytes(rng.choice([65535, 65536, 70001, 200000]))))
     server.append(("print", True))
     extra, want = [], {}
     if rng.random() < 0.5:
